@@ -12,6 +12,8 @@ The bound is judged against the delta and the mass-scaling power the workload as
 for (not what the driver reports), the density clause also by exact binomial tail tests
 at the 1e-9..1e-2 quantiles, and live drivers are re-tuned (delta, temperature, power)
 between steps.
+The density clause is also run for the adaptive driver (range collapsed to one delta), at temperatures far from any
+default and with two mass classes.
 """
 from __future__ import annotations
 
